@@ -37,6 +37,9 @@ TEXT = {
     "C10": dict(engine="engine-A-walk", design_ref="6/C10", technique="TLA+ spec of the packetiser (Framer.tla) + TLC + replay of every (stream, segmentation) on proto.STUNConn and TCPAllocation.BindConnection",
                 level_note="Trusted: TLC, Go, the scripted net.Conn of the harness. Bounded by the stream catalogue and the cut alphabet listed in the evidence assumptions.",
                 level_text="Invariants C10_Prefix / C10_Prompt / C10_Progress are model-checked over all segmentations of the catalogue; every edge (one read of k bytes) is replayed on the real reader: frames must come out whole, in order, byte-identical, in the step their last byte arrives, junk must yield an error, zero-length successes are a violation."),
+    "C11": dict(engine="engine-A-walk", design_ref="6/C11", technique="TLA+ decision table (Codec.tla) enumerated by TLC, one execution of the real codec per case",
+                level_note="Trusted: TLC, Go. A pure function is the situation the technique fits least; what is decided is acceptance, lengths, padding and value identity over the enumerated classes (plus a full sweep of channel numbers), contents are sampled by seed.",
+                level_text="C11_Decode / C11_Padding / C11_AttrSizes are checked by TLC over the table; every case is run on the real ChannelData codec (fresh and reused/dirty values) and the eleven attribute codecs, compared byte for byte."),
     "C17": dict(engine="engine-A-walk", design_ref="6/C17", technique="TLA+ decision table (LtCred.tla) + TLC + replay of every case on the real generators/handlers and through a real server",
                 level_note="Trusted: TLC, Go, synctest's clock; MAC/Key uninterpreted. Bounded: 2 handler kinds x 3 user ids x 5 durations x mint at 0/1 s after handler construction x probes at every second of a 5 s window x 13 mutation classes.",
                 level_text="LtCred.tla states C17_Iff (authenticates iff untouched pair and now <= expiry); TLC checks it over the whole table and every generated case is executed on the real code twice (handler call; signed Allocate through a real server)."),
